@@ -278,6 +278,26 @@ def op_label(o):
     return x
 
 
+def adapt(o, pre):
+    """Once the real objects have left the simulated behaviour (a deviation that is not there any more, a defect), the
+    remaining operations of the behaviour are still applied where they make sense in the OBSERVED state (the guards of
+    the actions of MatReg); every step is judged from its observed pre-state anyway.  Returns the operation or None."""
+    n = len(pre["heap"])
+    if o["h"] > n:
+        return None
+    k = o["op"]
+    it = pre["iso"][o["i"] - 1] if o["i"] else None
+    if k == "ListAppend":
+        return o if o["h"] not in pre["reg"] else None
+    if k in ("NewIsotherm", "SetMaterial"):
+        return {**o, "op": "NewIsotherm" if it["mat"] == 0 else "SetMaterial"}
+    if k == "RoundTrip":
+        return o if it["mat"] else None
+    if k in ("ConvertMaterial", "ReadLoading"):
+        return o if it["mat"] and it["basis"] != o["basis"] else None
+    return o
+
+
 def behaviours(cfg, cfg_num, depth, seed, workers):
     d = tlc.scratch("x05-")
     try:
@@ -334,7 +354,7 @@ def main(tier, seed):
     behs += behaviours("MatRegSimNamesakes", 60 if thorough else 25, 30 if thorough else 20, seed + 12, 8)
     records, meta, index = [], [], {}
     per_action = {a: 0 for a in ACTIONS}
-    diverged = 0
+    diverged = skipped = 0
     saved = list(pygaps.MATERIAL_LIST)
     try:
         for bi, steps in enumerate(behs):
@@ -342,7 +362,13 @@ def main(tier, seed):
             w = World(alpha)
             pre = w.project()
             hist = []
+            on_model = True
             for (op, model_out, model_state) in steps:
+                if not on_model:
+                    op = adapt(op, pre)
+                    if op is None:
+                        skipped += 1
+                        continue
                 out = w.apply(op, out0)
                 post = w.project()
                 hist.append(op_label(op))
@@ -355,9 +381,9 @@ def main(tier, seed):
                     meta.append({"behaviour": bi, "history": list(hist), "n": 0})
                 meta[index[key]]["n"] += 1
                 run.count(key, nontrivial=op["op"] not in ("NewMaterial",) or op["store"])
-                if post != model_state or out != model_out:
-                    diverged += 1           # the real objects left the simulated behaviour: later operations would address other objects
-                    break
+                if on_model and (post != model_state or out != model_out):
+                    diverged += 1           # the real objects left the simulated behaviour: the rest is applied to the observed state (adapt)
+                    on_model = False
                 pre = post
     finally:
         pygaps.MATERIAL_LIST[:] = saved
@@ -393,7 +419,7 @@ def main(tier, seed):
         elif not a["as_impl"]:
             run.note(f"MODEL-DRIFT: {op_label(o)} satisfies every clause but differs from the transcription in {sorted(a['differs'])}")
     missing = [d for d, n in predicted.items() if n == 0]
-    if missing and not diverged:
+    if missing and not run.violations:
         raise MachineryError("no replayed step in the deviation class(es) " + ", ".join(missing) + " (behaviours too short?)")
     for d, n in sorted(devs.items()):
         if n:
@@ -402,7 +428,7 @@ def main(tier, seed):
         run.note(f"deviation class {d}: {n} step(s) in the class satisfied the documentation (not observed on this tree)")
     run.add("traces_validated_against_impl", len(behs))
     run.set(behaviours_replayed=len(behs), steps_replayed=sum(per_action.values()), steps_judged_by_tlc=len(records), steps_per_action=per_action,
-            behaviours_cut_at_a_divergence_from_the_simulated_run=diverged,
+            behaviours_that_left_the_simulated_run=diverged, operations_skipped_after_leaving_it=skipped,
             situations_covered=dict(sorted(tags.items())), observations_named_deviations=devs, steps_in_deviation_classes=predicted, exhaustive=False,
             rule="TLC -simulate behaviours of MatRegMC (MatRegSim.cfg: 3 names, 3 property keys x 2 values, 3 bases, 2 isotherms, <= 6 objects), "
                  f"{nwide} behaviours of depth <= {30 if thorough else 24}, and {len(behs) - nwide} behaviours of MatRegSimNamesakes.cfg (one name, <= 4 objects); every step replayed on real objects and judged by MatRegOracle!StepVerdict from the "
